@@ -9,12 +9,14 @@ TECHNIQUE = ('exhaustive enumeration of words over 8 cluster alphabets, texts ov
              'output compared byte for byte with HtmlRenderer output on the same input')
 ASSUMPTIONS = ['side conditions are decided syntactically: GithubWiki inputs matching \\[\\[.*\\|.*\\]\\] are out, MathJax inputs '
                'with "$" are out, Pygments inputs whose HtmlRenderer output holds <pre> are out',
-               'escape options are attributes assigned per render on one instance per parse']
+               'escape options are attributes assigned per render on one instance per parse; texts of <= 2 lines over the line alphabet '
+               'are additionally rendered with every option set passed through the real constructor keywords']
 
 DEPTH = {'quick': dict(emph=6, block=4, link=4, html=4, misc=3, code=4, uni=3, wiki=4),
          'thorough': dict(emph=9, block=5, link=5, html=5, misc=5, code=6, uni=5, wiki=6)}
 LINES_K = {'quick': 3, 'thorough': 4}
 CONTRIB = ['Toc', 'GithubWiki', 'MathJax', 'Pygments']
+LINES18 = spaces.LINES + spaces.LINES_C01_EXTRA + ['it\'s "q" <b>x</b> & c', '[l\'k](</u v> "t\'")']
 OPTS = [dict(html_escape_double_quotes=a, html_escape_single_quotes=b) for a in (False, True) for b in (False, True)]
 WIKI = re.compile(r'\[\[.*\|.*\]\]', re.DOTALL)
 MATHJAX_SRC = '<script src="https://cdnjs.cloudflare.com/ajax/libs/mathjax/2.7.0/MathJax.js?config=TeX-MML-AM_CHTML"></script>\n'
@@ -31,7 +33,7 @@ def jobs(tier):
         alpha = spaces.ALPHABETS[name]
         for j in core.word_jobs(name, alpha, k, 2 if len(alpha) ** 2 <= 200 else 1):
             js.append(('words', name, j[1], j[2]))
-    L = spaces.LINES + spaces.LINES_C01_EXTRA
+    L = LINES18
     for i in range(len(L)):
         js.append(('lines', i, LINES_K[tier]))
     step = 8 if tier == 'thorough' else 24
@@ -44,12 +46,19 @@ def jobs(tier):
     return js
 
 
-def render_class(name, pht, text):
-    """[(opts, out)] or exception"""
+def render_class(name, pht, text, via_ctor=False):
+    """[(opts, out)] or exception. via_ctor: every option set through the real constructor keywords (one parse each)"""
     from mistletoe import Document
     core.fresh()
     R = configs.renderer_class(name)
     outs = []
+    if via_ctor:
+        for o in OPTS:
+            core.fresh()
+            with core.time_limit(20):
+                with R(process_html_tokens=pht, **o) as rend:
+                    outs.append(rend.render(Document(text)))
+        return outs
     with core.time_limit(20):
         with R(process_html_tokens=pht) as rend:
             doc = Document(text)
@@ -70,11 +79,11 @@ def applicable(name, text, base_out):
     return True
 
 
-def compare(text, pht, only=None):
+def compare(text, pht, only=None, via_ctor=False):
     """list of failures for this text / process_html_tokens value"""
     res = []
     try:
-        base = render_class('Html', pht, text)
+        base = render_class('Html', pht, text, via_ctor)
     except (Exception, core.EvalTimeout):
         return None
     for name in CONTRIB:
@@ -84,7 +93,7 @@ def compare(text, pht, only=None):
             res.append((name, None, 'skip'))
             continue
         try:
-            outs = render_class(name, pht, text)
+            outs = render_class(name, pht, text, via_ctor)
         except core.EvalTimeout:
             res.append((name, None, 'timeout'))
             continue
@@ -100,10 +109,10 @@ def compare(text, pht, only=None):
     return res
 
 
-def run_text(r, text):
+def run_text(r, text, via_ctor=False):
     r.states += 1
     for pht in (True, False):
-        res = compare(text, pht)
+        res = compare(text, pht, via_ctor=via_ctor)
         if res is None:
             r.skip('HtmlRenderer itself raised or timed out (C01)')
             continue
@@ -133,10 +142,11 @@ def run_job(job):
         r.sample(dict(space=name, text=''.join(alpha[i] for i in (prefix or ())) + alpha[0]), 1)
     elif kind == 'lines':
         _, first, k = job
-        L = spaces.LINES + spaces.LINES_C01_EXTRA
+        L = LINES18
         for n in range(1, k + 1):
             for rest in itertools.product(L, repeat=n - 1):
-                run_text(r, spaces.lines_text((L[first],) + rest))
+                # texts of <= 2 lines go through the real constructor keywords (option pass-through of the contrib classes)
+                run_text(r, spaces.lines_text((L[first],) + rest), via_ctor=(n <= 2))
         r.sample(dict(space='lines', text=spaces.lines_text((L[first], L[0]))), 1)
     elif kind == 'trees':
         _, n, depth, sh, ns = job
